@@ -142,12 +142,16 @@ let () =
            if not (params_ok p) then Buffer.add_string b (Printf.sprintf "OCHK %s BADPARAMS" id)
            else begin
              let ein = all_edges inp and eout = all_edges out in
-             let bad = ref (-1) and k = ref 0 and judged = ref 0 in
+             let bad = ref (-1) and k = ref 0 and judged = ref 0 and why = ref 0 in
              List.iter (fun s ->
-               if !bad < 0 && not (sample_verdict p ein eout s) then bad := !k;
+               if !bad < 0 && not (sample_verdict p ein eout s) then begin
+                 bad := !k;
+                 let wo = int_of_z (wind_fast eout s) in
+                 why := if wo <> 0 && wo <> 1 then 1 else if must_in p ein s && wo <> 1 then 2 else 3
+               end;
                if must_in p ein s || must_out p ein s then incr judged;
                incr k) samples;
-             Buffer.add_string b (Printf.sprintf "OCHK %s %d %d %d" id (if !bad < 0 then 1 else 0) !bad !judged)
+             Buffer.add_string b (Printf.sprintf "OCHK %s %d %d %d %d" id (if !bad < 0 then 1 else 0) !bad !judged !why)
            end
          | "MONO" ->
            let rs = next_z () in let ts = next_z () in
